@@ -1,5 +1,6 @@
 import FranzVerif.Model.C33
-/-! C33 — helper lemmas (framing, file-level crash of the append protocol, FS lemmas, pairing invariant). -/
+/-! C33 — helper lemmas (framing, file-level crash of the append protocol, FS lemmas, pairing invariant, segment
+replay at byte level, state logs over generations). -/
 open Model.C33
 namespace Proof.C33
 
@@ -8,9 +9,6 @@ def CrcRange (crc : Bytes → Nat) : Prop := ∀ bs, crc bs < 4294967296
 def Entry.WF (e : Entry) : Prop := e.version < 65536 ∧ e.data.length + 2 < 4294967296
 
 instance (e : Entry) : Decidable (Entry.WF e) := by unfold Entry.WF; infer_instance
-
-instance {β μ} (g : Generation β μ) : Decidable g.noSegOnly := by
-  unfold Generation.noSegOnly; split <;> infer_instance
 
 theorem rdLe32_le32 (n : Nat) (h : n < 4294967296) (r : Bytes) : rdLe32 (le32 n ++ r) = n := by
   simp [le32, rdLe32]; omega
@@ -231,6 +229,9 @@ theorem writeJSON_old_or_new (fs : FS) (path : String) (data : Bytes) (k : Nat) 
     right
     simp [crashImage, FS.run, writeJSONOps, FS.apply, get_crash, g1, get_set_eq, FileSt.write, FileSt.sync, FileSt.all, FileSt.crash]
 
+
+
+
 /-! ### record level: segment / index pairing -/
 
 theorem mem_pairFrom_of_mem_zip {β μ} (seg : List β) : ∀ (idx : List μ) (b : β) (m : μ), (b, m) ∈ seg.zip idx → (b, some m) ∈ pairFrom seg idx := by
@@ -246,7 +247,21 @@ theorem mem_pairFrom_of_mem_zip {β μ} (seg : List β) : ∀ (idx : List μ) (b
       · simp [pairFrom]
       · simp only [pairFrom, List.mem_cons]; right; exact ih ys b m h
 
-/-- the invariant kept when no append is torn with the segment record surviving alone -/
+/-- with as many index records as batches every replayed batch carries an index record -/
+theorem pairFrom_all_some {β μ} (seg : List β) : ∀ (idx : List μ), idx.length = seg.length → ∀ p ∈ pairFrom seg idx, p.2.isSome = true := by
+  induction seg with
+  | nil => intro idx _ p hp; simp [pairFrom] at hp
+  | cons x xs ih =>
+    intro idx hl p hp
+    cases idx with
+    | nil => simp at hl
+    | cons y ys =>
+      simp only [pairFrom, List.mem_cons] at hp
+      rcases hp with rfl | hp
+      · rfl
+      · exact ih ys (by simpa using hl) p hp
+
+/-- the invariant of every history: as many index records as batches, every acknowledged pair at the same position -/
 def Aligned {β μ} (s : SegIdx β μ) (acked : List (β × μ)) : Prop :=
   s.idx.length = s.seg.length ∧ ∀ bm ∈ acked, bm ∈ s.seg.zip s.idx
 
@@ -277,57 +292,64 @@ theorem aligned_foldl {β μ} (done : List (β × μ)) : ∀ (s : SegIdx β μ) 
     have := ih (s.append x.1 x.2) (A ++ [x]) (aligned_append s A h x.1 x.2)
     simpa [List.append_assoc] using this
 
-theorem aligned_recover {β μ} (s : SegIdx β μ) (A : List (β × μ)) (h : Aligned s A) : Aligned s.recover A := by
-  obtain ⟨hl, hm⟩ := h
-  have : s.idx.take s.seg.length = s.idx := by rw [← hl]; exact List.take_length
-  simp [SegIdx.recover, Aligned, this, hl]
-  exact fun a b h => hm (a, b) h
+/-- restart on equally long files changes nothing -/
+theorem recover_of_aligned {β μ} (s : SegIdx β μ) (hl : s.idx.length = s.seg.length) : s.recover = s := by
+  cases s with
+  | mk seg idx =>
+    simp only at hl
+    simp only [SegIdx.recover, hl]
+    rw [← hl, List.take_length, hl, List.take_length]
 
-theorem aligned_runGen {β μ} (s : SegIdx β μ) (A : List (β × μ)) (h : Aligned s A) (g : Generation β μ) (hg : g.noSegOnly) :
+theorem aligned_runGen {β μ} (s : SegIdx β μ) (A : List (β × μ)) (h : Aligned s A) (g : Generation β μ) :
     Aligned (s.runGen g) (A ++ g.done) := by
   have h1 := aligned_foldl g.done s A h
   unfold SegIdx.runGen
+  generalize (List.foldl (fun s bm => s.append bm.1 bm.2) s g.done) = s' at h1 ⊢
   cases hi : g.inflight with
-  | none => simpa [hi] using aligned_recover _ _ h1
+  | none => rw [recover_of_aligned _ h1.1]; exact h1
   | some x =>
     obtain ⟨b, m, t⟩ := x
-    simp only [Generation.noSegOnly, hi] at hg
+    obtain ⟨hl, hm⟩ := h1
     cases t with
-    | none => simpa [SegIdx.tornAppend] using aligned_recover _ _ h1
+    | none => simp only [SegIdx.tornAppend]; rw [recover_of_aligned _ hl]; exact ⟨hl, hm⟩
     | both =>
-      have h2 := aligned_append _ _ h1 b m
+      have h2 := aligned_append _ _ (⟨hl, hm⟩ : Aligned s' (A ++ g.done)) b m
       have h3 := aligned_mono _ (A ++ g.done) _ h2 (fun x hx => List.mem_append.mpr (Or.inl hx))
-      simpa [SegIdx.tornAppend] using aligned_recover _ _ h3
-    | segOnly => exact absurd rfl hg
+      simp only [SegIdx.tornAppend]; rw [recover_of_aligned _ h3.1]; exact h3
+    | segOnly =>
+      -- the batch without an index record is dropped
+      have : (s'.seg ++ [b]).take s'.idx.length = s'.seg := by rw [hl, List.take_left']; rfl
+      have h2 : s'.idx.take (s'.seg ++ [b]).length = s'.idx := by
+        apply List.take_of_length_le; simp [hl]
+      simp only [SegIdx.tornAppend, SegIdx.recover, this, h2]
+      exact ⟨hl, hm⟩
     | idxOnly =>
-      obtain ⟨hl, hm⟩ := h1
-      generalize (List.foldl (fun s bm => s.append bm.1 bm.2) s g.done) = s' at hl hm ⊢
-      have : (s'.idx ++ [m]).take s'.seg.length = s'.idx := by
-        rw [← hl, List.take_left']; rfl
-      simp only [SegIdx.tornAppend, SegIdx.recover, this]
+      have : (s'.idx ++ [m]).take s'.seg.length = s'.idx := by rw [← hl, List.take_left']; rfl
+      have h2 : s'.seg.take (s'.idx ++ [m]).length = s'.seg := by
+        apply List.take_of_length_le; simp [hl]
+      simp only [SegIdx.tornAppend, SegIdx.recover, this, h2]
       exact ⟨hl, hm⟩
 
 theorem aligned_runGens {β μ} (gs : List (Generation β μ)) : ∀ (s : SegIdx β μ) (A : List (β × μ)), Aligned s A →
-    (∀ g ∈ gs, g.noSegOnly) → Aligned (s.runGens gs) (A ++ ackedOf gs) := by
+    Aligned (s.runGens gs) (A ++ ackedOf gs) := by
   induction gs with
-  | nil => intro s A h _; simpa [SegIdx.runGens, ackedOf] using h
+  | nil => intro s A h; simpa [SegIdx.runGens, ackedOf] using h
   | cons g gs ih =>
-    intro s A h hg
-    have h1 := aligned_runGen s A h g (hg g (by simp))
-    have := ih (s.runGen g) (A ++ g.done) h1 (fun x hx => hg x (by simp [hx]))
+    intro s A h
+    have h1 := aligned_runGen s A h g
+    have := ih (s.runGen g) (A ++ g.done) h1
     simpa [SegIdx.runGens, ackedOf, List.append_assoc] using this
 
 
 
 /-! ### segment files: RecordBatch framing and the k ↔ k pairing at byte level -/
 
-
 /-- a complete valid RecordBatch as it sits in a segment file, decoding to `b` -/
 def BatchOK (crc : Bytes → Nat) (raw : Bytes) (b : Batch) : Prop :=
   raw.length = 12 + beNat (slice raw 8 4) ∧ beNat (slice raw 8 4) ≤ 1073741824 ∧ decodeBatch crc raw = some b
 
 def metaAt (crc : Bytes → Nat) (idx : Bytes) (k : Nat) : IdxMeta :=
-  if k * indexEntrySize + indexEntrySize ≤ idx.length then decodeIndexEntry crc (slice idx (k * indexEntrySize) indexEntrySize) else {}
+  decodeIndexEntry crc (slice idx (k * indexEntrySize) indexEntrySize)
 
 /-- batch k of the file with index entry k -/
 def pairIdx (crc : Bytes → Nat) (idx : Bytes) : Nat → List Batch → List (Batch × IdxMeta)
@@ -350,7 +372,9 @@ theorem slice_take (a : Bytes) (lo n m : Nat) (h : lo + n ≤ m) : slice (a.take
   omega
 
 theorem seg_step (crc : Bytes → Nat) (idx : Bytes) (raw : Bytes) (b : Batch) (h : BatchOK crc raw b) (fuel : Nat) (rest : Bytes) (k : Nat) :
-    loadSegmentAux crc idx (fuel + 1) (raw ++ rest) k = (b, metaAt crc idx k) :: loadSegmentAux crc idx fuel rest (k + 1) := by
+    loadSegmentAux crc (some idx) (fuel + 1) (raw ++ rest) k =
+      if k * indexEntrySize + indexEntrySize > idx.length then []
+      else (b, metaAt crc idx k) :: loadSegmentAux crc (some idx) fuel rest (k + 1) := by
   obtain ⟨hl, hb, hd⟩ := h
   have h12 : 8 + 4 ≤ raw.length := by omega
   have hs : slice (raw ++ rest) 8 4 = slice raw 8 4 := slice_append_left raw rest 8 4 h12
@@ -358,14 +382,11 @@ theorem seg_step (crc : Bytes → Nat) (idx : Bytes) (raw : Bytes) (b : Batch) (
   have hdr : (raw ++ rest).drop (12 + beNat (slice raw 8 4)) = rest := by rw [← hl, List.drop_left']; rfl
   rw [loadSegmentAux]
   simp only [hs, ht, hdr, hd, metaAt]
-  have a1 : ¬ ((raw ++ rest).length < 12) := by simp [List.length_append]; omega
   have a2 : ¬ (beNat (slice raw 8 4) > 1073741824) := by omega
-  have a3 : ¬ (12 + beNat (slice raw 8 4) > (raw ++ rest).length) := by simp [List.length_append]; omega
-  simp only [List.length_append] at a1 a3
-  simp [a2]
-  rw [if_neg (by omega), if_neg (by omega)]
+  simp only [List.length_append]
+  rw [if_neg (by omega), if_neg a2, if_neg (by omega)]
 
-theorem seg_torn (crc : Bytes → Nat) (idx : Bytes) (raw : Bytes) (b : Batch) (h : BatchOK crc raw b) (n : Nat) (hn : n < raw.length)
+theorem seg_torn (crc : Bytes → Nat) (idx : Option Bytes) (raw : Bytes) (b : Batch) (h : BatchOK crc raw b) (n : Nat) (hn : n < raw.length)
     (fuel k : Nat) : loadSegmentAux crc idx fuel (raw.take n) k = [] := by
   obtain ⟨hl, hb, hd⟩ := h
   cases fuel with
@@ -382,23 +403,107 @@ theorem seg_torn (crc : Bytes → Nat) (idx : Bytes) (raw : Bytes) (b : Batch) (
 theorem seg_load (crc : Bytes → Nat) (idx : Bytes) (raws : List Bytes) (bs : List Batch) (h : AllOK crc raws bs)
     (raw0 : Bytes) (b0 : Batch) (h0 : BatchOK crc raw0 b0) (n : Nat) (hn : n < raw0.length) :
     ∀ (fuel k : Nat), raws.length ≤ fuel →
-      loadSegmentAux crc idx fuel (raws.flatten ++ raw0.take n) k = pairIdx crc idx k bs := by
+      loadSegmentAux crc (some idx) fuel (raws.flatten ++ raw0.take n) k = pairIdx crc idx k (bs.take (idx.length / 15 - k)) := by
   induction h with
-  | nil => intro fuel k _; simpa [pairIdx] using seg_torn crc idx raw0 b0 h0 n hn fuel k
+  | nil => intro fuel k _; simpa [pairIdx] using seg_torn crc (some idx) raw0 b0 h0 n hn fuel k
   | cons hx _ ih =>
     intro fuel k hf
     cases fuel with
     | zero => simp at hf
     | succ f =>
       simp only [List.flatten_cons, List.append_assoc]
-      rw [seg_step crc idx _ _ hx, ih f (k + 1) (by simpa using hf)]
-      rfl
+      rw [seg_step crc idx _ _ hx]
+      by_cases hk : k * indexEntrySize + indexEntrySize > idx.length
+      · have : idx.length / 15 - k = 0 := by simp only [indexEntrySize] at hk; omega
+        simp [hk, this, pairIdx]
+      · obtain ⟨j, hj⟩ : ∃ j, idx.length / 15 - k = j + 1 := ⟨idx.length / 15 - k - 1, by simp only [indexEntrySize] at hk; omega⟩
+        have hj' : idx.length / 15 - (k + 1) = j := by omega
+        rw [if_neg hk, ih f (k + 1) (by simpa using hf), hj, hj']
+        simp [pairIdx]
 
 theorem flatten_length_ge (crc : Bytes → Nat) (raws : List Bytes) (bs : List Batch) (h : AllOK crc raws bs) :
     raws.length ≤ raws.flatten.length := by
   induction h with
   | nil => simp
   | cons hx _ ih => simp only [List.flatten_cons, List.length_append, List.length_cons]; have := hx.1; omega
+
+
+
+/-! ### state logs over generations -/
+
+/-- what can follow the complete frames after a crash: nothing, or a proper prefix of one frame -/
+def TornOK (crc : Bytes → Nat) (t : Bytes) : Prop :=
+  t = [] ∨ ∃ e n, Entry.WF e ∧ n < (frame crc e).length ∧ t = (frame crc e).take n
+
+theorem tornOK_read (crc : Bytes → Nat) (t : Bytes) (h : TornOK crc t) : readEntries crc t = ([], 0) := by
+  rcases h with rfl | ⟨e, n, he, hn, rfl⟩
+  · rfl
+  · exact readEntries_partial_frame crc e he n hn
+
+def LogGenWF (g : LogGen) : Prop := ∀ e ∈ g.es, Entry.WF e
+
+instance (g : LogGen) : Decidable (LogGenWF g) := by unfold LogGenWF; infer_instance
+
+theorem frames_append (crc : Bytes → Nat) (a b : List Entry) : frames crc (a ++ b) = frames crc a ++ frames crc b := by
+  simp [frames]
+
+theorem logGenStep_spec (crc : Bytes → Nat) (hc : CrcRange crc) (X : List Entry) (hX : ∀ e ∈ X, Entry.WF e)
+    (t : Bytes) (ht : TornOK crc t) (g : LogGen) (hg : LogGenWF g) :
+    ∃ m, g.k / 2 ≤ m ∧ m ≤ g.k / 2 + 1 ∧ ∃ t', TornOK crc t' ∧
+      logGenStep crc (frames crc X ++ t) g = frames crc (X ++ g.es.take m) ++ t' := by
+  have hr : readEntries crc (frames crc X ++ t) = (X ++ [], (frames crc X).length + 0) := by
+    rw [readEntries_frames_append crc hc X hX, tornOK_read crc t ht]
+  have hv : (frames crc X ++ t).take (readEntries crc (frames crc X ++ t)).2 = frames crc X := by
+    rw [hr]; simp
+  have hc0 := crash_appendHist (g.es.map (frame crc)) (frames crc X) g.k g.n
+  simp only [runF] at hc0
+  have hf : ∀ j, ((g.es.map (frame crc)).take j).flatten = frames crc (g.es.take j) := by
+    intro j; simp [frames, List.map_take]
+  have hstep : logGenStep crc (frames crc X ++ t) g =
+      frames crc X ++ frames crc (g.es.take (g.k / 2)) ++
+        (if g.k % 2 = 1 then ((g.es.map (frame crc)).getD (g.k / 2) []).take g.n else []) := by
+    unfold logGenStep
+    simp only [hv]
+    rw [hc0, hf]
+  rw [hstep]
+  by_cases hodd : g.k % 2 = 1
+  · simp only [hodd, if_true]
+    by_cases hlt : g.k / 2 < g.es.length
+    · have hget : (g.es.map (frame crc)).getD (g.k / 2) [] = frame crc g.es[g.k / 2] := by
+        simp [List.getD_eq_getElem?_getD, hlt]
+      rw [hget]
+      by_cases hn : g.n < (frame crc g.es[g.k / 2]).length
+      · exact ⟨g.k / 2, Nat.le_refl _, by omega, _, Or.inr ⟨_, _, hg _ (List.getElem_mem hlt), hn, rfl⟩, by rw [frames_append]⟩
+      · refine ⟨g.k / 2 + 1, by omega, Nat.le_refl _, [], Or.inl rfl, ?_⟩
+        have : (frame crc g.es[g.k / 2]).take g.n = frame crc g.es[g.k / 2] := List.take_of_length_le (by omega)
+        rw [this, List.take_succ_eq_append_getElem hlt, frames_append, frames_append]
+        simp [frames]
+    · refine ⟨g.k / 2, Nat.le_refl _, by omega, [], Or.inl rfl, ?_⟩
+      have hge : (g.es.map (frame crc)).length ≤ g.k / 2 := by simp; omega
+      have : (g.es.map (frame crc)).getD (g.k / 2) [] = [] := by
+        rw [List.getD_eq_getElem?_getD, List.getElem?_eq_none hge]; rfl
+      rw [this, frames_append]; simp
+  · refine ⟨g.k / 2, Nat.le_refl _, by omega, [], Or.inl rfl, ?_⟩
+    simp only [hodd, if_false]
+    rw [frames_append]
+
+theorem runLog_spec (crc : Bytes → Nat) (hc : CrcRange crc) (gs : List LogGen) :
+    (∀ g ∈ gs, LogGenWF g) → ∀ (X : List Entry) (t : Bytes), (∀ e ∈ X, Entry.WF e) → TornOK crc t →
+    ∃ ms, LogBounds gs ms ∧ ∃ t', TornOK crc t' ∧
+      gs.foldl (logGenStep crc) (frames crc X ++ t) = frames crc (X ++ pickLog gs ms) ++ t' := by
+  induction gs with
+  | nil => intro _ X t _ ht; exact ⟨[], trivial, t, ht, by simp [pickLog]⟩
+  | cons g gs ih =>
+    intro hgs X t hX ht
+    obtain ⟨m, h1, h2, t1, ht1, hs⟩ := logGenStep_spec crc hc X hX t ht g (hgs g (by simp))
+    have hX' : ∀ e ∈ X ++ g.es.take m, Entry.WF e := by
+      intro e he
+      rcases List.mem_append.mp he with h | h
+      · exact hX e h
+      · exact hgs g (by simp) e (List.mem_of_mem_take h)
+    obtain ⟨ms, hb, t', ht', hr⟩ := ih (fun x hx => hgs x (by simp [hx])) (X ++ g.es.take m) t1 hX' ht1
+    refine ⟨m :: ms, ⟨h1, h2, hb⟩, t', ht', ?_⟩
+    simp only [List.foldl_cons, hs, hr, pickLog, List.append_assoc]
 
 
 end Proof.C33
